@@ -17,6 +17,7 @@
 //! Nothing of the implementation (swap on enter/exit, Arc'd hash maps, ids) is used by the model.
 
 pub mod ctxts;
+pub mod race;
 
 use std::any::Any;
 use std::collections::{BTreeMap, BTreeSet};
@@ -104,6 +105,9 @@ pub enum How {
     InFn,
     /// `let f = frame.in_fn(|| body); spawn(f).join()` on a fresh OS thread
     InFnThread,
+    /// the same, but the new thread does NOT look at any context before calling the function: the
+    /// very first context operation of that thread is the enter of the carried frame
+    InFnThreadQuiet,
     /// `frame.in_future(async { body })`, awaited (inside a task) or driven by a nested executor
     InFuture,
     /// guard, body, drop; then the same `Frame` value is entered a second time
@@ -191,13 +195,21 @@ pub enum Node {
     /// unwind to the innermost `CatchPanic` (no-op outside of one)
     Panic,
     /// run the body on a fresh OS thread (joined before continuing), moving `carry` frames there
-    Thread { carry: Vec<u32>, body: Vec<Node> },
+    /// `quiet`: the new thread does not observe anything before running the body (so the body's
+    /// first node can be the thread's very first context operation, e.g. entering a carried frame)
+    Thread {
+        carry: Vec<u32>,
+        body: Vec<Node>,
+        #[serde(default)]
+        quiet: bool,
+    },
     /// run the tasks on a single-thread executor polling in `schedule` order: (which of the
-    /// unfinished tasks, poll it on a fresh helper thread instead of the executor's thread). The
+    /// unfinished tasks, where: 0 = on the executor's thread, 1 = on a fresh helper thread that first
+    /// checks it sees nothing, 2 = on a fresh helper thread whose first context operation is the poll). The
     /// helper-thread form is only used where nothing is visible on the executor's thread, so that a
     /// task sees the same surroundings wherever it is polled (a work-stealing runtime moving a
     /// suspended future between workers).
-    Join { tasks: Vec<Task>, schedule: Vec<(u32, bool)> },
+    Join { tasks: Vec<Task>, schedule: Vec<(u32, u8)> },
     /// on a spawned thread: hand control to the (blocked) parent thread, which checks that what IT
     /// sees is untouched by whatever this thread has active right now; a plain check on the main thread
     ParentCheck,
@@ -207,6 +219,10 @@ pub enum Node {
 
 #[derive(Serialize, Deserialize, Debug, Clone, PartialEq)]
 pub struct Case {
+    /// skip the observation at program start, so that the first node is the first operation on
+    /// this case's fresh instances
+    #[serde(default)]
+    pub quiet_start: bool,
     pub prog: Vec<Node>,
 }
 
@@ -475,6 +491,7 @@ fn wrap_label(w: Wrap) -> &'static str {
 
 fn create<'c>(k: &'c K, spec: &Spec, env: &Env, fl: Fl) -> Stored<'c> {
     let inst = spec.inst as usize % 3;
+    touch(1u8 << inst);
     let props = HeldProps::new(&spec.props);
     let own = props.model();
     let seen = env.0[inst].clone();
@@ -682,6 +699,7 @@ fn obs_name(o: Obs) -> &'static str {
 }
 
 fn check_via(k: &K, env: &Env, obs: Obs, at: &'static str) -> Res {
+    touch(0b111);
     if obs == Obs::All {
         for o in ALL_OBS {
             check_via(k, env, o, at)?;
@@ -815,6 +833,21 @@ fn payload_text(p: &(dyn Any + Send)) -> String {
     } else {
         "<non-string panic payload>".to_string()
     }
+}
+
+thread_local! {
+    /// Bit per instance: some context operation (observation, frame creation, enter) already
+    /// happened for it on this thread in this case. Only used to label the class "the first
+    /// operation of an instance on a thread is the enter of a frame that came from elsewhere".
+    static TOUCHED: std::cell::Cell<u8> = const { std::cell::Cell::new(0) };
+}
+
+fn touch(mask: u8) -> u8 {
+    TOUCHED.with(|t| {
+        let before = t.get();
+        t.set(before | mask);
+        before
+    })
 }
 
 thread_local! {
@@ -957,7 +990,8 @@ async fn step<'a, 'c: 'a>(n: &'a Node, env: &'a Env, st: &'a mut Store<'c>, k: &
             }
             Ok(())
         }
-        Node::Thread { carry, body } => {
+        Node::Thread { carry, body, quiet } => {
+            let quiet = *quiet;
             let moved = take_carried(st, carry);
             if !moved.is_empty() {
                 k.label("thread:carried-frames");
@@ -977,7 +1011,9 @@ async fn step<'a, 'c: 'a>(n: &'a Node, env: &'a Env, st: &'a mut Store<'c>, k: &
             let back = on_fresh_thread(k, env, move || -> Result<Store<'c>, Fail> {
                 // a fresh thread sees nothing, whatever is active on its parent
                 let e = Env::empty();
-                check_all(k, &e, "thread-start")?;
+                if !quiet {
+                    check_all(k, &e, "thread-start")?;
+                }
                 let mut st2 = moved;
                 block_on_ready(run(body, e.clone(), &mut st2, k, fl_t))?;
                 check_all(k, &e, "thread-end")?;
@@ -1070,10 +1106,10 @@ fn join<'a, 'c: 'a>(tasks: &'a [Task], schedule: &'a [(u32, bool)], env: &'a Env
             break;
         }
         let (i, elsewhere) = match sched.next() {
-            Some((x, elsewhere)) => (alive[pick(*x, alive.len())], *elsewhere && may_migrate),
+            Some((x, place)) => (alive[pick(*x, alive.len())], if may_migrate { *place % 3 } else { 0 }),
             None => {
                 rr += 1;
-                (alive[rr % alive.len()], false)
+                (alive[rr % alive.len()], 0)
             }
         };
         guard += 1;
@@ -1092,7 +1128,7 @@ fn join<'a, 'c: 'a>(tasks: &'a [Task], schedule: &'a [(u32, bool)], env: &'a Env
             }
         }
         k.stat(|s| s.polls += 1);
-        let r = if elsewhere {
+        let r = if elsewhere > 0 {
             k.label("thread");
             k.label("join:polled-on-helper-thread");
             if suspended_frames[i] > 0 {
@@ -1103,7 +1139,9 @@ fn join<'a, 'c: 'a>(tasks: &'a [Task], schedule: &'a [(u32, bool)], env: &'a Env
             on_fresh_thread(k, env, move || {
                 let fut = fut;
                 let e = Env::empty();
-                check_all(k, &e, "thread-start")?;
+                if elsewhere == 1 {
+                    check_all(k, &e, "thread-start")?;
+                }
                 let mut cx = Context::from_waker(Waker::noop());
                 let r = fut.0.as_mut().poll(&mut cx);
                 // completed or suspended: the helper thread is left as it was found
@@ -1165,6 +1203,13 @@ async fn enter_stored<'a, 'c: 'a>(
     };
     let mut fl_in = fl;
     if value.is_some() {
+        if touch(1u8 << inst) & (1u8 << inst) == 0 {
+            // nothing was observed or created for this instance on this thread before
+            k.label("fresh-thread-first-op-is-enter");
+            if born_thread != fl.thread {
+                k.label("fresh-thread-first-op-is-enter:carried-frame");
+            }
+        }
         fl_in.depth += 1;
         fl_in.since_catch += 1;
         if fl.active & !(1u8 << inst) != 0 {
@@ -1195,7 +1240,7 @@ async fn enter_stored<'a, 'c: 'a>(
         How::With => "how:with",
         How::Call => "how:call",
         How::InFn => "how:in_fn",
-        How::InFnThread => "how:in_fn-on-thread",
+        How::InFnThread | How::InFnThreadQuiet => "how:in_fn-on-thread",
         How::InFuture => "how:in_future",
         How::EnterTwice => "how:enter-twice",
         How::Manual => "how:manual",
@@ -1315,7 +1360,8 @@ where
             check_all(k, outer, "after-in_fn-return")?;
             Ok(None)
         }
-        How::InFnThread => {
+        How::InFnThread | How::InFnThreadQuiet => {
+            let quiet = how == How::InFnThreadQuiet;
             let tid = k.next_thread.fetch_add(1, Ordering::Relaxed);
             k.label("thread");
             if info.has_value {
@@ -1347,7 +1393,9 @@ where
                 check_all(k, &e_in2, "before-in_fn-return")
             });
             on_fresh_thread(k, outer, move || -> Res {
-                check_all(k, &e0, "thread-start")?;
+                if !quiet {
+                    check_all(k, &e0, "thread-start")?;
+                }
                 f()?;
                 check_all(k, &e0, "thread-end")
             })?;
@@ -1449,12 +1497,16 @@ fn scrub_shared() {
 
 pub fn run_case(case: &Case) -> Result<Stats, Fail> {
     scrub_shared();
+    // this case's A and B are brand new; the per-thread shared() storage may have been used before
+    TOUCHED.with(|t| t.set(t.get() & 0b100));
     let k = K::new();
     let env = Env::empty();
     let r = {
         let mut st: Store<'_> = Vec::new();
         let r = catch_unwind(AssertUnwindSafe(|| {
-            check_via(&k, &env, Obs::All, "program-start")?;
+            if !case.quiet_start {
+                check_via(&k, &env, Obs::All, "program-start")?;
+            }
             block_on_ready(run(&case.prog, env.clone(), &mut st, &k, Fl::root()))
         }));
         // frames never entered again are closed here
